@@ -184,6 +184,15 @@ func NewClient(cl *Cluster, o MgrOpts) (*Client, error) {
 	if dt == 0 {
 		dt = 50
 	}
+	if !o.WithBlock {
+		// a non-blocking dial never waits for its timeout; a short one only makes the dial fail
+		// when the machine is so busy that grpc.DialContext itself takes that long
+		dt = 10000
+	}
+	reach := make([]bool, cl.N)
+	for i := range reach {
+		reach[i] = cl.Fab.Reachable(Addr(i))
+	}
 	bo := o.BackoffMs
 	if bo == 0 {
 		bo = 20
@@ -239,6 +248,18 @@ func NewClient(cl *Cluster, o MgrOpts) (*Client, error) {
 	}
 	c.Configs = append(c.Configs, cfg)
 	c.CfgSrv = append(c.CfgSrv, all)
+	if !o.NoConnect {
+		// Precondition of every case: a node whose server was reachable while the manager was
+		// created is connected. It can only fail to be if the (blocking) dial timed out, i.e.
+		// on an overloaded machine; such a case is not evaluated.
+		for _, n := range cfg.Nodes() {
+			i, ok := c.srvOf[n.ID()]
+			if ok && reach[i] && cl.Fab.Reachable(Addr(i)) && !gorums.VerifConnected(n.RawNode) {
+				c.Close(B)
+				return c, fmt.Errorf("setup: the node of reachable server %d did not connect within the dial timeout (%d ms); machine overloaded?", i, dt)
+			}
+		}
+	}
 	return c, nil
 }
 
